@@ -16,9 +16,10 @@ CASE_TIMEOUT = 150
 BATCH_SIZE = {'quick': 3, 'thorough': 10}
 REQUIRED_COUNTERS = ['transformed_runs', 'cell_records_joined',
                      'duplicate_rows_compared']
-RULE = ('case = generated world (factor 1) + 6 (quick) / 10 (thorough) '
+RULE = ('case = generated world (factor 1) + 7 (quick) / 11 (thorough) '
         'transformed queries: row permutation, sub-sample, embedding among '
-        'foreign cells, duplication under new ids, chunk size / worker '
+        'foreign cells (ordinary, and 1e17 / 1e9 times brighter than the '
+        'cells under observation), duplication under new ids, chunk size / worker '
         'count / encoding change.  Cells with a near-tie (|delta corr| < '
         '1e-7) between candidate leaves at any node on their path are '
         'don\'t-care for assignment equality.  Non-trivial = at least one '
@@ -48,7 +49,7 @@ def gen_cases(tier, seed):
         c['dup_rows'] = True
         c['with_csv'] = False
         c['with_hdf5'] = False
-        c['n_transforms'] = 6 if tier == 'quick' else 10
+        c['n_transforms'] = 7 if tier == 'quick' else 11
         if i % 6 == 0:
             c['x_dtype'] = 'float32'
         c['marker_kmin'] = 4
@@ -120,7 +121,8 @@ def run_case(spec, work):
                 for rec in r['json']['results'][:1] for lv in model.hierarchy)
 
     transforms = ['permute', 'subsample', 'embed', 'duplicate', 'chunking',
-                  'encoding', 'permute', 'embed', 'subsample', 'chunking']
+                  'encoding', 'embed_bright', 'permute', 'embed',
+                  'subsample', 'chunking']
     for ti in range(spec['n_transforms']):
         kind = transforms[ti % len(transforms)]
         X = w.Xq
@@ -135,13 +137,17 @@ def run_case(spec, work):
             if rng.random() < 0.5:
                 p = rng.permutation(p)
             X2, ids2 = X[p], [ids[i] for i in p]
-        elif kind == 'embed':
+        elif kind in ('embed', 'embed_bright'):
             m = int(rng.integers(1, 2 * n + 2))
             if w.spec['normalization'] == 'raw':
                 F = np.floor(rng.uniform(0, 500, size=(m, X.shape[1])))
             else:
                 F = rng.uniform(0, 12, size=(m, X.shape[1]))
             F[rng.random(F.shape) < 0.3] = 0
+            if kind == 'embed_bright':
+                # company that is many orders of magnitude brighter
+                is32 = str(X.dtype) == 'float32'
+                F = F * (1e9 if is32 else 1e17)
             F = F.astype(X.dtype)
             allX = np.vstack([X, F])
             allids = ids + [f'foreign_{j}' for j in range(m)]
